@@ -23,10 +23,11 @@ LEVEL_TEXT = ('Bounded stand-in (labelled bounded, not proved): the framing runs
               'enip_srv_tcp over a socket pair (counting wrapper around the real logix.process) and the real client receive path, over reference-encoded '
               'streams: two-way splits, byte-at-a-time, k-way splits, coalesced frames, and every truncation offset followed by EOF. '
               'A small deductive core rides along and IS discharged for all inputs: the push-back/peek/next accounting of automata.peeking '
-              '(the `sent` count and the pending-stream view every limit is computed from).')
+              'chaining and remembering (the `sent` count and the pending-stream view back-stack + iterator + chained blocks that every limit is computed from; '
+              'remembering.forget is framed: it may assign only self.memory).')
 LEVEL_NOTE = ('Deciding tier is bounded: streams of Register + 1..3 requests; quick samples the two-way splits (all boundaries included), thorough takes all. '
-              'chaining/remembering and state.run/dfa_base.delegate are not under contract. Other sessions/listener liveness is C08/C09 territory.')
-TECHNIQUE = 'bounded: real enip_machine / enip_srv_tcp / client framing under enumerated segmentations and truncations with a reference encoder; deductive contracts (pyvc, z3) on automata.peeking push/peek/__next__'
+              'state.run/dfa_base.delegate are not under contract (fragments only, see C10). Other sessions/listener liveness is C08/C09 territory.')
+TECHNIQUE = 'bounded: real enip_machine / enip_srv_tcp / client framing under enumerated segmentations and truncations with a reference encoder; deductive contracts (pyvc, z3/cvc5) on automata.peeking push/peek/__next__, chaining chain/__next__, remembering forget/__next__/push'
 TRUSTED = ['reference encoder contracts/wire.py (written from the layout tables)', 'socket pair / loopback TCP delivery keeps chunk boundaries when sends are spaced by a few ms (not guaranteed by TCP; a coalesced delivery only weakens the test)']
 ASSUMPTIONS = ['one connection at a time']
 
@@ -361,4 +362,4 @@ def client_side(tier, rng, viol, distinct):
 
 def contracts(repo):
     from . import source_common as SC
-    return SC.peeking_specs()
+    return SC.peeking_specs() + SC.chaining_specs() + SC.remembering_specs()
